@@ -115,7 +115,7 @@ func genUpload(t *rt.Tape, r *rt.Run, srcDir, tag string, allowOdd bool) *upload
 			r.Probe("file-needs-several-read-write-calls")
 		}
 		f := upFile{Listed: listed, Base: base, SrcPath: path.Join(srcDir, listed), Content: t.Sub("up.content").Bytes(size)}
-		f.Escapes = !strings.HasPrefix(f.SrcPath, srcDir+"/")
+		f.Escapes = path.Dir(f.SrcPath) != srcDir
 		u.Files = append(u.Files, f)
 	}
 	if allowOdd && n > 0 && t.Bool(1, 25, "up.lists-itself") {
@@ -377,7 +377,7 @@ func c20Exec(r *rt.Run, w *c20Work, planIdx int, fault simos.Fault, tag string) 
 			if p == "" || p == "/" {
 				continue
 			}
-			if !under(p, u.SrcDir) && !under(p, c20Dst) {
+			if !(p == u.SrcDir || path.Dir(p) == u.SrcDir) && !(p == c20Dst || path.Dir(p) == c20Dst) {
 				what := "touched"
 				switch op.Op {
 				case "open", "read":
@@ -649,7 +649,7 @@ func init() {
 			"real_instrumented": []string{"pault.ag/go/debian/control (ParseDscFile, ParseChangesFile, DSC/Changes.Copy/Move/Remove, AbsFiles)", "pault.ag/go/debian/internal (Copy)"},
 			"stub":              []string{"verifsim/simos: in-memory POSIX-like file system replacing package os in the scratch copy (yield, fault and crash point at every call); differentially tested against the real os by ./check selftest simos"},
 		},
-		Assumptions: []string{"crash = death of the calling process (completed calls persist); power-loss semantics are not modelled because the library never calls fsync and the property does not promise power-fail durability", "after a crash only the every-instant invariants are demanded; the atomic-failure clause is demanded when an error is returned", "a listed name that resolves into a subdirectory of the control file's directory counts as inside that directory"},
+		Assumptions: []string{"crash = death of the calling process (completed calls persist); power-loss semantics are not modelled because the library never calls fsync and the property does not promise power-fail durability", "after a crash only the every-instant invariants are demanded; the atomic-failure clause is demanded when an error is returned", "a listed name must resolve to a file directly in the control file's own directory: a subdirectory of it is outside (strict reading of the statement)"},
 	})
 	propProbes["C20"] = []string{"traversal-name", "absolute-name", "name-with-subdirectory", "control-file-lists-itself", "file-needs-several-read-write-calls", "uploader-crashed", "EXDEV-on-rename", "fault-on-control-file-create", "fault-on-control-file-write", "fault-on-control-file-close", "fault-on-control-file-rename", "fault-on-first-file", "fault-on-last-file", "crash-between-last-file-and-control-file", "watcher-ran-between-create-and-first-write-of-control-file"}
 }
